@@ -10,7 +10,7 @@ classified by hand), otherwise the suite alone catches it (SUITE-ONLY). One JSON
 import json, os, re, subprocess, sys, hashlib
 env = dict(os.environ, GOFLAGS="-mod=mod", GOPROXY="off", GOSUMDB="off", GOTOOLCHAIN="local")
 def sh(cmd, **kw):
-    return subprocess.run(cmd, shell=True, capture_output=True, text=True, env=env, **kw)
+    return subprocess.run(cmd, shell=True, capture_output=True, text=True, errors="replace", env=env, **kw)
 out_path, cap = sys.argv[1], int(sys.argv[2])
 props = sys.argv[3:] or [f"C{i:02d}" for i in range(1, 21)]
 P = {}
